@@ -708,6 +708,25 @@ def c04_cases(thorough):
       if t in seen: continue
       seen.add(t)
       yield Case('FUNCTOR', p, list(prog) + [mk[0] for mk in makes], schema='U4', dbs=dbs, fact_dbs=[dbs[27], dbs[63]] if thorough else [dbs[39]])
+  # rules that read functor results, and functors applied to such rules (the made predicate is an inner node, not a leaf)
+  for fbody in ([['D1']], [['D1', 'B1']], [['D1'], ['B1']]):
+    for m1 in ({'A1': 'C1'}, {'D1': 'C1'}, {'A1': 'D1x'}):
+      for pbody in ([['N']], [['N', 'B1']], [['N'], ['A1']]):
+        for qbody in ([['P']], [['P', 'A1']], [['P'], ['D1']], [['P'], ['A1']], [['P', 'N']]):
+          base_rules = [unary_rule('D1', [['A1']]), unary_rule('F', fbody), Functor('N', 'F', tuple(sorted(m1.items()))), unary_rule('P', pbody), unary_rule('Q', qbody)]
+          qdeps = {'P', 'N'} | {q for b in qbody for q in b} | {q for b in pbody for q in b}
+          for a in ('A1', 'D1', 'B1', 'N', 'P', 'C1'):
+            for v in ('B1', 'D1x') if thorough or a in ('A1', 'D1') else ('B1',):
+              if a == v: continue
+              stmts = base_rules + [Functor('K', 'Q', ((a, v),))]
+              p = Program(stmts)
+              t = p.text()
+              if t in seen: continue
+              seen.add(t)
+              yield Case('FUNCTOR-DEEP', p, ['D1', 'F', 'N', 'P', 'Q', 'K'], schema='U4', dbs=dbs[::2], fact_dbs=[])
+              if thorough or a == 'A1':
+                p2 = Program(stmts + [Functor('L', 'K', (('B1', 'C1'),)), unary_rule('W', [['K', 'L']])])
+                yield Case('FUNCTOR-DEEP', p2, ['K', 'L', 'W', 'Q'], schema='U4', dbs=dbs[::2], fact_dbs=[])
   # constants as arguments, value-carrying functors, aggregation inside, annotated intermediate
   extra = [
     [R('Thr', value=N(2)), R('Thr1', value=N(1)), R('F', x, body=(Lit('A1', x), Cmp('>=', x, Call('Thr')))), Functor('G', 'F', (('Thr', 'Thr1'),))],
@@ -773,11 +792,14 @@ def c18_cases(thorough):
           'agg': ([R('T', x, Aggr('Sum', y), Aggr('Count', y), body=(Lit('P', x, y),), distinct=True)], ['T'], False),
           'combine': ([R('T', z, s_, body=(Lit('B', z), Eq(s_, Comb('Sum', y, (Lit('P', x, y), Cmp('>=', x, z))))))], ['T'], False),
           'negated': ([R('T', z, body=(Lit('B', z), Not(Lit('P', z, y))))], ['T'], False),
+          'self_join': ([R('T', x, z, body=(Lit('P', x, y), Lit('P', z, V('w')), Cmp('<=', x, z)))], ['T'], False),
+          'two_readers': ([R('Q1', x, body=(Lit('P', x, y),)), R('Q2', y, body=(Lit('P', x, y),)), R('T', x, y, body=(Lit('Q1', x), Lit('Q2', y)))], ['T'], False),
+          'reader_and_direct': ([R('Q1', x, body=(Lit('P', x, y),)), R('T', x, z, body=(Lit('Q1', x), Lit('P', z, y)))], ['T'], False),
           'functor': ([R('F', x, y, body=(Lit('P', x, y),)), R('A2', x, y, body=(Lit('A', y, x),)), Functor('G', 'F', (('A', 'A2'),))], ['G'], False),
         }
         for use, (extra, preds, ordered) in uses.items():
           if use == 'functor' and (K is None or form == 'denot' and not thorough): continue
-          if use in ('negated', 'join') and not thorough and form == 'ann': continue
+          if use in ('negated', 'join', 'two_readers', 'reader_and_direct') and not thorough and form == 'ann': continue
           c = Case('ORD/' + use, Program(P + extra), preds, dbs=dbs, fact_dbs=[dbs[37]], info=dict(K=K, order=order, form=form, use=use, ordered=ordered))
           c.ol = ol
           yield c
